@@ -862,6 +862,7 @@ PROPS = {
                                   "C07_vm_tables_wf_initial",
                                   "C07_vm_key_checked_run_tables_wf", "C07_vm_run_agrees_key_checked",
                                   "C07_vm_tables_wf_run", "C07_vm_tables_wf_nested_run",
+                                  "C07_vm_nested_runs_entered_with_invariant",
                                   "C07_vm_run_set_property_in_order", "C07_vm_key_is_value",
                                   "C07_vm_table_user_view", "C07_vm_run_fresh_user_view",
                                   "C07_vm_nan_key_table", "C07_vm_set_property_nan"]},
@@ -898,8 +899,10 @@ PROPS = {
             "arbitrary bytecode, budget, build and any start state with the invariant, PROVIDED no executed "
             "SetProperty has a key outside the key domain; the proviso is stated through the key-checked VM run_k "
             "(the VM with that single run-time check, stopping with AUnmodelled): run_k keeps the invariant "
-            "unconditionally and a run on which the check never fails is the key-checked run; states inside a "
-            "native between two nested runs are covered by the native lemmas only, not listed in the state list; "
+            "unconditionally and a run on which the check never fails is the key-checked run; the state list of "
+            "a run is that of its own dispatch loop: its nested runs are covered through "
+            "C07_vm_nested_runs_entered_with_invariant (natives enter nested runs only in states with the "
+            "invariant) plus the nested-run theorem, states inside a native by the native lemmas only; "
             "the legacy budget rule (run_legacy) is not covered",
             "NaN keys: only the behaviour of the table operations is stated (C07_vm_nan_key_table, "
             "C07_vm_set_property_nan: every insert adds a row, reads find nothing, iteration skips the row, len "
